@@ -548,7 +548,7 @@ pub fn run(tier: Tier, seed: u64, known: &Known) -> PropRun {
         run.failure = fl;
         return run;
     }
-    let part = Part { name: "last-iteration", cases: tier.pick(320, 20_000), min_len: 24, max_len: 300, max_shrink: 60, threads: threads() };
+    let part = Part { name: "last-iteration", cases: tier.pick(320, 5_000), min_len: 24, max_len: 300, max_shrink: 60, threads: threads() };
     let (st, fl) = run_part(&part, seed, known, |b, st| {
         setp();
         check_last_iteration(b, st)
@@ -558,7 +558,7 @@ pub fn run(tier: Tier, seed: u64, known: &Known) -> PropRun {
         run.failure = fl;
         return run;
     }
-    let part = Part { name: "last-iteration-large", cases: tier.pick(500, 20_000), min_len: 24, max_len: 400, max_shrink: 40, threads: threads() };
+    let part = Part { name: "last-iteration-large", cases: tier.pick(500, 10_000), min_len: 24, max_len: 400, max_shrink: 40, threads: threads() };
     let (st, fl) = run_part(&part, seed, known, check_last_iteration_large);
     run.stats.merge(st);
     if fl.is_some() {
